@@ -76,8 +76,66 @@ def retained_case(rng):
     return {"steps": steps, "env": gen.ENV}
 
 
+def casefold_case(rng):
+    """keys that differ only by letter case, and references spelled in yet another case: which key a reference finds
+    (none: an error) must not depend on map iteration order"""
+    names = rng.choice([["CPU", "cpu", "Cpu"], ["Content-Type", "content-type", "CONTENT-TYPE"], ["Path", "PATH", "path"], ["Name", "name", "NAME"]])
+    present = rng.sample(names, rng.randint(2, 3))
+    doc = {k: {"n": i, "deep": {"v": k}} if rng.random() < 0.7 else i for i, k in enumerate(present)}
+    refs = [n for n in names + [names[0].swapcase(), names[0].title()]]
+    for j in range(rng.randint(1, 3)):
+        r = rng.choice(refs)
+        doc["r%d" % j] = rng.choice(["$\"{%s.n}\"" % r, "$\"{%s}\"" % r, {"$merge": r}, {"$replace": r + ".deep"}, "$merge:" + r])
+    return {"steps": [{"merge": {"id": "D0", "parents": [], "data": doc}}, {"outdocs": True}, {"out": "json"}], "env": {}}
+
+
+ENV_FLIPS = [({"BKL_V": "one"}, {"BKL_V": "two"}), ({"BKL_V": "x"}, {}), ({}, {"BKL_V": "late"}), ({"BKL_V": "1", "BKL_W": "a"}, {"BKL_V": "1", "BKL_W": "b"}),
+             ({"BKL_V": ""}, {"BKL_V": " "})]
+
+
+def env_flip_group(doc, envs):
+    """one process evaluates doc under envs[0], envs[1], ...; each result is compared with a fresh process's"""
+    fixed = [to_op({"steps": [{"merge": {"id": "D0", "parents": [], "data": doc}}, {"outdocs": True}], "env": e}, i) for i, e in enumerate(envs)]
+    same = run_go(fixed)                                  # fewer than 50 ops: ONE process, in order
+    envp = dict(os.environ, BKLGO_TIMEOUT_MS="60000")
+    out = []
+    for op in fixed:
+        p = subprocess.run([os.path.join(BIN, "bklgo")], input=json.dumps(op) + "\n", capture_output=True, text=True, env=envp, timeout=120)
+        try:
+            fresh = json.loads(p.stdout.strip().split("\n")[-1])
+        except Exception:
+            continue
+        a_, b_ = strip_err({"res": (same.get(op["id"]) or {}).get("res", [])}), strip_err({"res": fresh.get("res", [])})
+        out.append((op["id"], a_ == b_, same.get(op["id"]), fresh))
+    return out
+
+
+def env_flip_stage(rep, rng, groups):
+    """the environment is an INPUT: the same document evaluated in ONE process under environment A, then B, then A
+    again gives, each time, what a fresh process gives under that environment"""
+    bad = []
+    for g in range(groups):
+        a, b = rng.choice(ENV_FLIPS)
+        doc = {"k": 1}
+        for j in range(rng.randint(1, 3)):
+            w = rng.choice(["BKL_V", "BKL_V", "BKL_W"])
+            doc["e%d" % j] = rng.choice(["$env:" + w, "$\"<{$env:%s}>\"" % w, {"$encode": "base64", "$value": "$env:" + w}, ["$env:" + w]])
+        if rng.random() < 0.3:
+            doc["$env:BKL_V"] = "as-key"
+        envs = [a, b, a]
+        for idx, ok, same, fresh in env_flip_group(doc, envs):
+            rep.case(["envflip", doc, envs[idx]], True)
+            rep.count("envflip:compared")
+            if not ok and not any(c.get("envflip") for c, _, _ in bad):
+                bad.append(({"envflip": {"doc": doc, "envs": envs}, "steps": []}, {"position": idx, "same_process": same, "fresh_process": fresh},
+                            "the environment changed between two evaluations in one process: the later evaluation differs from a fresh process with the same environment"))
+    return bad
+
+
 def gen_case(rng):
     r0 = rng.random()
+    if r0 < 0.04:
+        return casefold_case(rng)
     if r0 < 0.05:
         return retained_case(rng)
     if r0 < 0.1:
@@ -152,6 +210,7 @@ def run(rep):
     n = 1500 if rep.tier == "quick" else 30000
     cases = [c for _, c in load_corpus(PID)] + [gen_case(rng) for _ in range(n)]
     bad = run_batch(rep, cases, 20, 32, fresh=40 if rep.tier == "quick" else 400)
+    bad += env_flip_stage(rep, rng, 30 if rep.tier == "quick" else 600)
     if rep.tier == "thorough" and os.path.exists(os.path.join(BIN, "bklgo-race")):
         sub = cases[: 4000]
         bad += run_batch(rep, sub, 3, 16, binary="bklgo-race")
@@ -167,6 +226,11 @@ def run(rep):
 
 def replay(rep, payload):
     c = payload["case"]
+    if "envflip" in c:
+        res = env_flip_group(c["envflip"]["doc"], c["envflip"]["envs"])
+        for r in res:
+            print(r)
+        return 1 if any(not ok for _, ok, _, _ in res) else 0
     bad = run_batch(rep, [c], 50, 64, fresh=5)
     for _, r, d in bad:
         print(d)
